@@ -237,6 +237,8 @@ class ShimSocket:
         return s, addr
 
     def connect(self, addr):
+        if self.closed:
+            raise _oserr(errno.EBADF)
         h = self.h
         with HLOCK:
             h.activity += 1
@@ -280,6 +282,8 @@ class ShimSocket:
         self.h.log("connect_complete", sock=self.sid, so_error=self.so_error)
 
     def recv(self, n):
+        if self.closed:
+            raise _oserr(errno.EBADF)
         h = self.h
         with HLOCK:
             h.activity += 1
@@ -301,6 +305,8 @@ class ShimSocket:
         return data
 
     def send(self, data):
+        if self.closed:
+            raise _oserr(errno.EBADF)
         h = self.h
         with HLOCK:
             h.activity += 1
